@@ -33,6 +33,8 @@ Judge(e) ==
   \* with collision checking switched off (CheckMode::NoCheck) nothing collides and nothing is filtered
   \cup (IF ~e.checking /\ (\E k \in 1..Len(e.collides) : e.collides[k]) THEN {"C11:collision-reported-although-checking-is-off"} ELSE {})
   \cup (IF ~e.checking /\ e.outer # e.inner THEN {"C11:answers-filtered-although-checking-is-off"} ELSE {})
+  \* what is returned still solves the requested pose (1 micrometre, 1 microradian: nm / nrad from the oracle)
+  \cup (IF e.outer_n > 1001 THEN {"C11:answer-misses-pose"} ELSE {})
   \cup (IF e.fwd_n > 2 THEN {"C11:forward-differs-from-stack"} ELSE {})
   \cup (IF e.links_n > 2 THEN {"C11:link-poses-differ-from-stack"} ELSE {})
   \cup (IF ~e.limits_same THEN {"C11:limits-differ-from-stack"} ELSE {})
